@@ -37,6 +37,9 @@ type Config struct {
 }
 
 type Engine struct {
+	// knownLabel tells whether an assertion label of a harness is a recorded finding (known_findings.json)
+	knownLabel   func(harness, label string) bool
+	curHarness   string
 	cfg          Config
 	prog         *ssa.Program
 	yq, cmd      *ssa.Package
@@ -465,6 +468,7 @@ func (e *Engine) explore(fnName string, pkg *ssa.Package) (*HarnessStats, error)
 		return nil, fmt.Errorf("harness function %s not found in %s", fnName, pkg.Pkg.Path())
 	}
 	st := &HarnessStats{Name: fnName, Covers: map[string]int{}, Messages: map[string]int{}}
+	e.curHarness = fnName
 	t0 := time.Now()
 	var mu sync.Mutex
 	cond := sync.NewCond(&mu)
